@@ -34,7 +34,9 @@ MANIFEST_ENTRY = {
         "RFC answer incl. clamping of last-byte-pos and suffix longer than the resource "
         "(range_rfc7233_partial, range_satisfiable_iff_partial, range_suffix_whole_partial; side condition: each "
         "number has at most sys.get_int_max_str_digits() digits, the excluded region is characterised by "
-        "range_overlong and listed in the ledger). The model is tied to the code on every run by two differential "
+        "range_overlong and listed in the ledger); the Content-Range text is unambiguous, so whatever first/last/length a "
+        "client reads out of a 206 are the bounds of exactly the body it received and the full length "
+        "(contentRange_unambiguous, range_206_reads_back, range_416_not_a_slice). The model is tied to the code on every run by two differential "
         "correspondence channels (pure get_http_range; end-to-end HTTP on fixture streams) and an independent "
         "RFC 7233 oracle judges the real responses."),
     "level_note": (
